@@ -295,7 +295,7 @@ fn arg_shape(arg: &str) -> String {
     if arg.contains("//") {
         v.push("empty-seg");
     }
-    if arg.contains('é') {
+    if arg.contains('é') || arg.contains('Я') || arg.contains('Į') {
         v.push("multibyte");
     }
     if arg
@@ -310,17 +310,20 @@ fn arg_shape(arg: &str) -> String {
     v.join("+")
 }
 
+const SIGMA: [char; 5] = ['/', '.', 'a', 'b', 'é'];
+const SIGMA_LOW_BYTE: [char; 6] = ['/', '.', 'a', 'é', 'Я', 'Į'];
+
 fn sweep<P: PathVal>(
     api: &str,
     root: &P,
     other: &P,
     l: usize,
     l_assoc: usize,
+    sigma: &[char],
 ) -> (u64, Vec<Found>, HashSet<String>) {
-    let sigma = ['/', '.', 'a', 'b', 'é'];
     let bases = ["", "/a", "/a/b", "/a.b", "/é/a", "/a/b/a"];
-    let args = strings(&sigma, l);
-    let short = strings(&sigma, l_assoc);
+    let args = strings(sigma, l);
+    let short = strings(sigma, l_assoc);
     let res: Vec<(u64, Vec<Found>, HashSet<String>)> = bases
         .par_iter()
         .map(|base| {
@@ -534,7 +537,7 @@ pub fn run_c06(ctx: &Ctx) -> i32 {
     let mut classes: BTreeMap<String, u64> = BTreeMap::new();
     let r1 = VfsPath::new(MemoryFS::new());
     let r2 = VfsPath::new(MemoryFS::new());
-    let (n1, f1, c1) = sweep("VfsPath", &r1, &r2, l, la);
+    let (n1, mut f1, mut c1) = sweep("VfsPath", &r1, &r2, l, la, &SIGMA);
     println!(
         "  [VfsPath strings <= {} over {{/ . a b é}} x 6 bases] evaluations={} findings={}",
         l,
@@ -543,7 +546,23 @@ pub fn run_c06(ctx: &Ctx) -> i32 {
     );
     let a1 = AsyncVfsPath::new(AsyncMemoryFS::new());
     let a2 = AsyncVfsPath::new(AsyncMemoryFS::new());
-    let (n2, f2, c2) = sweep("AsyncVfsPath", &a1, &a2, l, la);
+    let (n2, mut f2, mut c2) = sweep("AsyncVfsPath", &a1, &a2, l, la, &SIGMA);
+    // a second alphabet with characters whose code points end in the byte of '/' resp. '.'
+    // ('Я' U+042F, 'Į' U+012E), shorter strings
+    let l2 = if thorough { 6 } else { 5 };
+    let (n1b, f1b, c1b) = sweep("VfsPath", &r1, &r2, l2, 2, &SIGMA_LOW_BYTE);
+    let (n2b, f2b, c2b) = sweep("AsyncVfsPath", &a1, &a2, l2, 2, &SIGMA_LOW_BYTE);
+    println!(
+        "  [both path types, strings <= {} over {{/ . a é Я Į}}] evaluations={} findings={}",
+        l2,
+        n1b + n2b,
+        f1b.len() + f2b.len()
+    );
+    let (n1, n2) = (n1 + n1b, n2 + n2b);
+    f1.extend(f1b);
+    f2.extend(f2b);
+    c1.extend(c1b);
+    c2.extend(c2b);
     println!(
         "  [AsyncVfsPath same] evaluations={} findings={}",
         n2,
@@ -639,10 +658,12 @@ pub fn run_c06(ctx: &Ctx) -> i32 {
 pub fn panic_sweep(l: usize) -> (u64, Vec<Violation>) {
     let r1 = VfsPath::new(MemoryFS::new());
     let r2 = VfsPath::new(MemoryFS::new());
-    let (n1, f1, _) = sweep("VfsPath", &r1, &r2, l, 2);
+    let (n1, mut f1, _) = sweep("VfsPath", &r1, &r2, l, 2, &SIGMA);
+    f1.extend(sweep("VfsPath", &r1, &r2, 4, 1, &SIGMA_LOW_BYTE).1);
     let a1 = AsyncVfsPath::new(AsyncMemoryFS::new());
     let a2 = AsyncVfsPath::new(AsyncMemoryFS::new());
-    let (n2, f2, _) = sweep("AsyncVfsPath", &a1, &a2, l, 2);
+    let (n2, mut f2, _) = sweep("AsyncVfsPath", &a1, &a2, l, 2, &SIGMA);
+    f2.extend(sweep("AsyncVfsPath", &a1, &a2, 4, 1, &SIGMA_LOW_BYTE).1);
     let v = f1
         .into_iter()
         .chain(f2)
